@@ -17,7 +17,10 @@ feat=$(grep -o -- '--no-default-features[^`"]*' "$src/demo.rs" | head -1)
 echo "## apply"; git apply "$src/patch.diff" && echo applied
 echo "## existing suite with change: cargo test --offline"; cargo test --offline 2>&1 | grep -E "^test result|FAILED|failed|error" ; 
 cp "$src/demo.rs" tests/seeded_demo.rs
+echo "## demo with change, default features (expect failure): cargo test --offline --test seeded_demo"; cargo test --offline --test seeded_demo 2>&1 | grep -E "^test result|^test .*(FAILED|ok)|error(\[|:)" | head -20 > "$log.d"; cat "$log.d"
+if ! grep -q "FAILED" "$log.d" && [ -n "$feat" ]; then
 echo "## demo with change (expect failure): cargo test --offline --test seeded_demo $feat"; cargo test --offline --test seeded_demo $feat 2>&1 | grep -E "^test result|^test .*(FAILED|ok)|error(\[|:)" | head -20
+else feat=""; fi
 git checkout -- src
 echo "## demo without change (expect pass)"; cargo test --offline --test seeded_demo $feat 2>&1 | grep -E "^test result|^test .*(FAILED|ok)|error(\[|:)" | head -20
 } > "$log" 2>&1
